@@ -112,6 +112,7 @@ def sh(cmd, cwd=None, timeout=1800, env=None):
 class BuildResult:
     def __init__(self):
         self.gen_ok = True
+        self.gen_fallback = []   # tables the translator could not regenerate: committed baseline used, tie = correspondence only
         self.gen_log = ""
         self.model_ok = True     # models + extraction + driver built
         self.proof_ok = True     # Props/Cxx.vo built
@@ -224,6 +225,7 @@ def build(prop: str, driver: str | None, extra_targets=(), extra_props=()) -> Bu
         # only the tables this property depends on: a change elsewhere in /repo must not alarm here
         rc, out = sh([PY, os.path.join(VERIF, "harness", "gen_tables.py")] + (gens or ["--none"]), env=env, timeout=300)
         res.gen_log = out
+        res.gen_fallback = [l[len("GENFALLBACK "):] for l in out.splitlines() if l.startswith("GENFALLBACK ")]
         if rc != 0:
             res.gen_ok = False
             res.model_ok = False
@@ -456,6 +458,31 @@ def record_fingerprints():
     return out
 
 
+def record_baseline_tables():
+    """regenerate every table from REPO (must be the unchanged tree) with the fallback disabled, into a scratch directory, and
+    snapshot them into coq/GenBaseline/<file>.baseline (committed)"""
+    import tempfile, shutil
+    tmp = tempfile.mkdtemp(prefix="genbase_", dir="/var/tmp")
+    try:
+        env = dict(os.environ, VERIF_NO_GEN_FALLBACK="1", VERIF_GEN_OUT=tmp)
+        rc, out = sh([PY, os.path.join(VERIF, "harness", "gen_tables.py")], env=env, timeout=900)
+        print(out.strip()[-600:])
+        if rc != 0:
+            return None
+        bdir = os.path.join(COQ, "GenBaseline")
+        os.makedirs(bdir, exist_ok=True)
+        n = 0
+        for f in sorted(glob.glob(os.path.join(tmp, "*.v"))):
+            txt = open(f).read()
+            dst = os.path.join(bdir, os.path.basename(f) + ".baseline")
+            if not os.path.exists(dst) or open(dst).read() != txt:
+                open(dst, "w").write(txt)
+            n += 1
+        return n
+    finally:
+        shutil.rmtree(tmp, ignore_errors=True)
+
+
 def load_known(prop: str):
     """returns {id: text} of `open:` findings for prop"""
     res = {}
@@ -512,6 +539,11 @@ def run_property(mod, tier: str) -> int:
     disagreements = []
     n_disagree = 0
     escalate, changed_files = anchors_changed(prop) if tier == "quick" else (False, [])
+    if br.gen_fallback:
+        say("[%s] translator fallback: %d table(s) could not be regenerated from the changed source; the committed baseline table is "
+            "used and the tie to the source is the correspondence check alone (escalated): %s" % (prop, len(br.gen_fallback), " | ".join(br.gen_fallback)[:600]))
+        if tier == "quick":
+            escalate = True
     if escalate:
         say("[%s] anchored source changed since fingerprints were recorded (%s): escalating the quick tier" % (prop, ", ".join(changed_files[:5])))
     n_cases = 0
@@ -691,6 +723,7 @@ def run_property(mod, tier: str) -> int:
             "oracle_calls": 0,
             "partial": getattr(mod, "PARTIAL", []),
             "broken": br.broken,
+            "translator_fallback": br.gen_fallback,
         },
         "assumptions": list(getattr(mod, "ASSUMPTIONS", [])),
         "wall_s": round(wall, 2),
